@@ -53,6 +53,12 @@ CHECKS = {
         text="All signatures with <= 3 parameters x default patterns x all calls (k positional, any subset of the rest named) over int/str/bool/None/list/dict x 5 call forms (await, parenthesised, start, when, start-group): each parameter gets its positional/named/default value, `$x = await f` gets the returned value, caller and sibling locals stay untouched. Quick = 1/64 partition (about 2.7k programs, partition chosen by seed), thorough = 1/8 (about 19k).",
         note="trusted: program rendering, FlowCall.tla; malformed calls (surplus positional, parameter named twice, unknown name) are not generated; default expressions are literals",
         design_ref="6/C08"),
+    "C10": dict(
+        category="model_checking", engine="Isolation",
+        technique="TLA+ judge (Isolation.tla: StepBound(program size), fault-vs-abort differential); micro steps counted by wrapping the interpreter's slide / internal-event functions over the recorded corpus; fault injection at every statement position driven through the real RuntimeV2_x.process_events; observations judged by TLC",
+        text="(a) every run_to_completion of generated + hand-written programs (activated flows finishing/failing immediately, restart label, recursion with a wait) stays below a bound linear in compiled elements x live instances (hard cap and wall-clock alarm detect non-termination); (b) 9 fault kinds (bad expressions in assignment, condition, send/start/match arguments, invalid regex, priority, index) x 6 statement positions: nothing escapes process_events, a ColangError is produced, and witness flows in other loops produce exactly the outputs of the run where the statement is an explicit abort, for the same and later events.",
+        note="trusted: step counting wrappers, program templates; StepBound constants fixed from the corpus maximum with slack; exhaustive exploration of histories at spec level is ColangSM's job",
+        design_ref="6/C10"),
     "C12": dict(
         category="model_checking", engine="CFG",
         technique="TLC reachability over the control-flow graph of every compiled flow (the real compiler's FlowConfig.elements exported as JSON): CFG.tla tracks position, open scopes, failure-handler stack and forks along every path; Colang 1.0 offsets by V1Closed.tla",
